@@ -524,34 +524,38 @@ class C12:
 
     # ------------------------------------------------------------------------------------
     def vp_fingerprints(self):
-        """The automatic `derived` discharge trusts the in-crate callees listed as value-preserving. That
-        assumption is pinned: each such function's structural fingerprint (resolved callees + number of
-        aborting assertions) must equal the one recorded when the table line was reviewed."""
-        want = self.tab.get("value_preserving_fingerprints", {})
+        """The automatic `derived` discharge trusts the in-crate callees listed as value-preserving. A
+        conversion that silently drops part of the value breaks that trust, so each such function is checked
+        for truncating constructs: a `zip` of two sequences without an aborting length assertion, or a call to a shortening routine (narrowing casts are not judged: `from_u128` legitimately
+        splits its argument into limbs). (Not a fingerprint: re-routing or restructuring the
+        conversion without such a construct changes nothing.)"""
+        INT_BITS = {"u8": 8, "u16": 16, "u32": 32, "u64": 64, "u128": 128, "usize": 64, "i8": 8, "i16": 16, "i32": 32,
+                    "i64": 64, "i128": 128, "isize": 64}
         for b in self.f.fn_bodies():
             n = norm_id(b["id"])
             if n not in self.vp or b["kind"] == "Closure":
                 continue
             view = mir.BodyView(b)
-            callees = sorted({norm_id(mir.callee_name(t) or "<indirect>") for bi, t in view.calls()
-                              if not view.blocks[bi]["cleanup"]})
-            guards = sum(1 for i in view.live_blocks() if view.abort_guard(i))
-            fp = callees + ["abort_guards:%d" % guards]
-            self.r.count("value_preserving_functions_pinned")
+            self.r.count("value_preserving_functions_checked")
             key = "c12.vpfn|%s" % n
-            if n not in want:
+            problems = []
+            has_len_assert = any(view.abort_guard(i) for i in view.live_blocks())
+            for bi, t in view.calls():
+                if view.blocks[bi]["cleanup"]:
+                    continue
+                seg = mir.last_seg(mir.callee_decl(t))
+                if seg == "zip" and not has_len_assert:
+                    problems.append("`zip` of two sequences (stops at the shorter) with no aborting length assertion")
+                if seg in ("shorten", "truncate", "split_at", "split", "resize") and n.split("::")[-1] not in ("shorten",):
+                    problems.append("calls `%s`" % seg)
+            if problems:
                 self.r.add(Instance(key, "c12.vpfn", "violation",
-                                    "value-preserving callee has no recorded fingerprint in tables/c12_sites.toml", b["span"],
-                                    {"fingerprint": fp}), self.cfg)
-            elif sorted(want[n]) == sorted(fp):
-                self.r.add(Instance(key, "c12.vpfn", "ok", "auto: fingerprint of the assumed value-preserving function is "
-                                    "unchanged", b["span"], {"fingerprint": fp}), self.cfg)
+                                    "`%s` is assumed value-preserving by the NonZero/Odd `derived` rule but contains a "
+                                    "truncating construct: %s" % (b["id"], "; ".join(sorted(set(problems)))), b["span"],
+                                    {"problems": sorted(set(problems))}), self.cfg)
             else:
-                self.r.add(Instance(key, "c12.vpfn", "violation",
-                                    "`%s` is assumed value-preserving by the NonZero/Odd `derived` rule, but its body changed "
-                                    "(callees/assertions now %s, reviewed %s): a truncating or otherwise value-changing "
-                                    "conversion would let an invalid value into a wrapper" % (b["id"], fp, sorted(want[n])),
-                                    b["span"], {"fingerprint": fp, "reviewed": sorted(want[n])}), self.cfg)
+                self.r.add(Instance(key, "c12.vpfn", "ok", "auto: no truncating construct (unguarded zip, narrowing cast, "
+                                    "shortening call) in the assumed value-preserving conversion", b["span"], {}), self.cfg)
 
     # ------------------------------------------------------------------------------------
     def back_doors(self):
